@@ -84,15 +84,15 @@ func explicitPanics(p *core.Prog) []panicSite {
 // panicClass is the reviewed classification of the explicit panic sites,
 // keyed by "pkgrel function" (A.2 of DESIGN.md).
 var panicClass = map[string]string{
-	" (*ServerSession).handleRequestInner": "contract: the application's OnSetup handler returned 200 without / with a wrong stream (not peer controlled)",
-	" (*ServerConn).handleRequestInner":    "contract: the application's OnDescribe handler returned 200 without stream or body (not peer controlled)",
-	" (*serverSessionFormat).initialize":   "precondition: Receiver.Initialize fails only for Period == 0; Server.Start defaults the period (checked by C11/PERIOD-DEFAULT)",
-	" (*clientFormat).initialize":          "precondition: Receiver.Initialize fails only for Period == 0; Client.Start defaults the period (checked by C11/PERIOD-DEFAULT)",
+	" (*ServerSession).handleRequestInner":                   "contract: the application's OnSetup handler returned 200 without / with a wrong stream (not peer controlled)",
+	" (*ServerConn).handleRequestInner":                      "contract: the application's OnDescribe handler returned 200 without stream or body (not peer controlled)",
+	" (*serverSessionFormat).initialize":                     "precondition: Receiver.Initialize fails only for Period == 0; Server.Start defaults the period (checked by C11/PERIOD-DEFAULT)",
+	" (*clientFormat).initialize":                            "precondition: Receiver.Initialize fails only for Period == 0; Client.Start defaults the period (checked by C11/PERIOD-DEFAULT)",
 	" (*serverMulticastWriterMedia).initialize$initialize$1": "precondition: the multicast write closures always return nil (checked by C11/MULTICAST-NIL)",
-	"pkg/format/rtpmjpeg (*Encoder).Encode": "caller contract of the encoder (documented 'might panic otherwise'); not on a peer-controlled path",
-	"pkg/format/rtpvp8 (*Encoder).Encode":   "pion payloader returned nil for a non-empty frame: documented caller contract",
-	"pkg/format/rtpvp9 (*Encoder).Encode":   "pion payloader returned nil for a non-empty frame: documented caller contract",
-	"pkg/readbuffer ReadBuffer":          "OS call failure on a socket the library just opened",
+	"pkg/format/rtpmjpeg (*Encoder).Encode":                  "caller contract of the encoder (documented 'might panic otherwise'); not on a peer-controlled path",
+	"pkg/format/rtpvp8 (*Encoder).Encode":                    "pion payloader returned nil for a non-empty frame: documented caller contract",
+	"pkg/format/rtpvp9 (*Encoder).Encode":                    "pion payloader returned nil for a non-empty frame: documented caller contract",
+	"pkg/readbuffer ReadBuffer":                              "OS call failure on a socket the library just opened",
 }
 
 // stubs: functions whose body is only `panic("unimplemented")`; they must be
